@@ -16,10 +16,20 @@ use std::rc::Rc;
 pub const BIN_OPS: [&str; 8] = ["and", "or", "xor", "nor", "nand", "implies", "eq", "implies_rev"];
 
 pub fn apply_engine<S: BDDSymbol>(env: &BDDEnv<S>, op: &str, a: &Rc<BDD<S>>, b: &Rc<BDD<S>>) -> Rc<BDD<S>> {
-    // every seventh call hands the engine private copies it becomes the sole owner of
+    apply_engine_impl(env, op, a, b, false)
+}
+
+/// C03 only: every seventh call hands the engine private copies it becomes the sole owner of (the
+/// VALUE of the result is what C03 judges; such results contain nodes the environment does not
+/// own, so properties about sharing — C13 — must not use this variant).
+pub fn apply_engine_handing_over<S: BDDSymbol>(env: &BDDEnv<S>, op: &str, a: &Rc<BDD<S>>, b: &Rc<BDD<S>>) -> Rc<BDD<S>> {
+    apply_engine_impl(env, op, a, b, true)
+}
+
+fn apply_engine_impl<S: BDDSymbol>(env: &BDDEnv<S>, op: &str, a: &Rc<BDD<S>>, b: &Rc<BDD<S>>, hand_over_copies: bool) -> Rc<BDD<S>> {
     thread_local!(static CALLS: std::cell::Cell<u64> = const { std::cell::Cell::new(0) });
     let k = CALLS.with(|c| { c.set(c.get() + 1); c.get() });
-    if k % 7 == 0 {
+    if hand_over_copies && k % 7 == 0 {
         let (a2, b2) = (crate::conv::deep_copy(a), crate::conv::deep_copy(b));
         return match op {
             "and" => env.and(a2, b2),
@@ -129,7 +139,7 @@ fn check_binary(
     let n = uni.len() as u32;
     let case = || json!({"kind": "binary", "op": op, "a": a.2.hex(), "b": b.2.hex(), "universe": uni.iter().map(|x| x.to_string()).collect::<Vec<_>>(), "config": cfg_name});
     util::budget(50_000_000, 1000);
-    let r = match guarded(|| apply_engine(env, op, &a.0, &b.0)) {
+    let r = match guarded(|| apply_engine_handing_over(env, op, &a.0, &b.0)) {
         Ok(r) => r,
         Err(c) => {
             st.violate("c03.panic", format!("C03:{}:{}", op, c.signature()), format!("{}({}, {}) did not return: {:?}", op, short(&a.0), short(&b.0), c), case());
@@ -454,7 +464,7 @@ fn weak_hash_part(ctx: &Ctx, job: usize, iters: u64) -> Stats {
         let op = *rng.pick(&BIN_OPS);
         let case = json!({"kind": "weak-hash", "seed": ctx.seed, "job": job});
         util::budget(5_000_000, 1000);
-        let r = guarded(|| if use_ite { env.ite(Rc::clone(&a.0), Rc::clone(&b.0), Rc::clone(&c.0)) } else { apply_engine(&env, op, &a.0, &b.0) });
+        let r = guarded(|| if use_ite { env.ite(Rc::clone(&a.0), Rc::clone(&b.0), Rc::clone(&c.0)) } else { apply_engine_handing_over(&env, op, &a.0, &b.0) });
         match r {
             Ok(r) => {
                 let want = if use_ite { a.2.ite(&b.2, &c.2) } else { apply_ref(op, &a.2, &b.2) };
@@ -510,7 +520,7 @@ fn named_part(ctx: &Ctx, job: usize, iters: u64) -> Stats {
         st.evals += 1;
         st.bump("named_symbol_calls");
         let case = json!({"kind": "named-binary", "op": op, "a": a.2.hex(), "b": b.2.hex(), "seed": ctx.seed, "job": job, "iters": iters});
-        match guarded(|| apply_engine(&env, op, &a.0, &b.0)) {
+        match guarded(|| apply_engine_handing_over(&env, op, &a.0, &b.0)) {
             Ok(r) => {
                 let want = apply_ref(op, &a.2, &b.2);
                 let got = tt_of_bdd(&r, n, &idx);
